@@ -78,9 +78,15 @@ class MonoModel(Model):
 
 def run(chk):
     lib = load(chk)
-    chk.technique = ("finite decision table extracted from the typed tree (values touched only through comparisons: "
+    analyse(chk, lib)
+
+
+def analyse(chk, lib, set_text=True):
+    technique = ("finite decision table extracted from the typed tree (values touched only through comparisons: "
                      "4 order relations) + product construction against the reference classifier (language equivalence "
                      "for words of every length)")
+    if set_text:
+        chk.technique = technique
     chk.rule('R12.1', "the fold step (closure passed to try_fold) is comparison-only and total on the reachable "
                       "abstract states x {<,=,>,unordered}; the extracted automaton is language-equivalent to the "
                       "reference classifier on {<,=,>}* (product construction), and on every word containing "
@@ -269,6 +275,8 @@ def run(chk):
         for rel in RELS:
             work.append((step(node, rel), un or rel == 'un', (word + ' ' + rel).strip()[-60:]))
     chk.note('nan_product_states', nan_nodes)
+    if not set_text:
+        return
     chk.exhaustive = True
     chk.explanation = (
         "The fold step closure of monotonic_prop touches the two window elements only through comparisons, so its "
